@@ -41,8 +41,10 @@ func runSelftest(cfg RunConfig, file string, max int) (ran, missed int) {
 		path := filepath.Join(cfg.Repo, c.File)
 		src, err := os.ReadFile(path)
 		if err != nil || !strings.Contains(string(src), c.Find) {
-			fmt.Printf("SELFTEST %s: STALE (pattern not found in %s) — canary needs updating\n", c.Name, c.File)
-			missed++
+			// the code the canary edits has changed: the canary cannot be applied (not an error of
+			// the tree under check; on the unchanged tree this line means the corpus needs updating)
+			fmt.Printf("SELFTEST %s: STALE (pattern not found in %s)\n", c.Name, c.File)
+			ran--
 			continue
 		}
 		mut := strings.Replace(string(src), c.Find, c.Replace, 1)
